@@ -659,6 +659,42 @@ func (eng *Engine) checkClause(p *packages.Package, cl *Clause, pos token.Pos, u
 		return
 	}
 	cl.Expr, cl.Info = x, info
+	if eng.localClause != "" && u != nil && !u.lemma && u.Decl != nil && u.Decl.Body != nil {
+		// a name that resolves to a parameter or function-level variable while a
+		// nested block declares another variable of the same name is ambiguous: the
+		// clause author may have meant the inner one
+		for id, obj := range info.Uses {
+			v, ok := obj.(*types.Var)
+			if !ok || v.IsField() || v.Pkg() != u.Pkg.Types || isPkgLevel(v) {
+				continue
+			}
+			// only parameters are checked: `err`-style re-declarations of function-level
+			// variables in inner blocks are conventional and mean the outer one here
+			isParam := false
+			if sg, ok := u.Fn.Type().(*types.Signature); ok {
+				for i := 0; i < sg.Params().Len(); i++ {
+					if sg.Params().At(i) == v {
+						isParam = true
+					}
+				}
+			}
+			if !isParam {
+				continue
+			}
+			n := 0
+			for did, dobj := range u.Pkg.TypesInfo.Defs {
+				if did.Name == id.Name && dobj != nil && dobj != obj && did.Pos() >= u.Decl.Body.Pos() && did.Pos() <= u.Decl.Body.End() {
+					if dv, ok := dobj.(*types.Var); ok && !dv.IsField() {
+						n++
+					}
+				}
+			}
+			if n > 0 {
+				eng.broken = append(eng.broken, fmt.Sprintf("%s:%d: clause names %q, which is declared more than once in %s (parameter / outer variable and a nested block): ambiguous", cl.File, cl.Line, id.Name, u.Key()))
+				break
+			}
+		}
+	}
 }
 
 // uniqueLocal returns the only local variable named name declared anywhere in
